@@ -23,11 +23,11 @@ def fingerprint(case, tags):
 
 PROP = {
     "go_test": "TestC07",
-    "level_text": "Kernel-checked theorems (13 + a refutation witness for the known record-key truncation finding + two concrete witnesses, closed under the global context) over ALL histories of a Gallina model of the quarantine module, the bank transfers it intercepts and the marker send restriction that runs before it (opt-in/out, MsgSend, MsgMultiSend, many-inputs InputOutputCoins, accept, decline, auto-response updates, restricted marker coins, started from any genesis incl. multi-sender records): the holder's balance covers the record total per denom and its surplus is constant unless someone pays the holder directly; for every transfer kind, pair by pair, a quarantined (input, output) pair leaves the receiver's balance unchanged and adds exactly its amount to the (to, from) record; only an accept lowers the holder's balance; the suffix index reaches every multi-sender record from each of its senders (so accept/decline see every record); an accept removes exactly the records all of whose unaccepted senders were named, pays exactly their coins holder -> receiver, and an accept naming all unaccepted senders of a record IS accepted and pays it in that step (liveness); a decline puts every named sender back among the unaccepted ones and the record then stays unpaid, coins intact, through every continuation without an accept naming that sender; decline/opt/auto-response operations change no balance and no record coins; auto-accepted or non-quarantined sends arrive directly; the sum of all balances per denom is conserved by every history; every genesis yields a well-formed, index-sound state. Each run replays generated histories (240 quick / 4000 thorough, 10-40 operations, restricted marker coins in ~3/4 of them, scripted accept/decline/re-decline sequences on multi-sender records) through the REAL message handlers, bank and marker keeper, compares every observable with the model inside Coq after every step, evaluates an index-free executable statement of the property on the implementation's observations alone (incl. a ledger of the receiver's own Accept/Decline answers: no payout while a sender was last declined) and runs the module's own invariant.",
+    "level_text": "Kernel-checked theorems (13 + a refutation witness for the known record-key truncation finding + two concrete witnesses, closed under the global context) over ALL histories of a Gallina model of the quarantine module, the bank transfers it intercepts and the marker send restriction that runs before it (opt-in/out, MsgSend, MsgMultiSend, many-inputs InputOutputCoins, accept, decline, auto-response updates, restricted marker coins, started from any genesis incl. multi-sender records): the holder's balance covers the record total per denom and its surplus is constant unless someone pays the holder directly; for every transfer kind, pair by pair, a quarantined (input, output) pair leaves the receiver's balance unchanged and adds exactly its amount to the (to, from) record; only an accept lowers the holder's balance; the suffix index reaches every multi-sender record from each of its senders (so accept/decline see every record); an accept removes exactly the records all of whose unaccepted senders were named, pays exactly their coins holder -> receiver, and an accept naming all unaccepted senders of a record IS accepted and pays it in that step (liveness); a decline puts every named sender back among the unaccepted ones and the record then stays unpaid, coins intact, through every continuation without an accept naming that sender; decline/opt/auto-response operations change no balance and no record coins; auto-accepted or non-quarantined sends arrive directly; the sum of all balances per denom is conserved by every history; InitGenesis accepts a genesis exactly when every record has a sender and the holder holds the imported total per denom, and what it accepts is a well-formed, index-sound state whose holder covers the records. Each run replays generated histories (240 quick / 4000 thorough, 10-40 operations, restricted marker coins in ~3/4 of them, scripted accept/decline/re-decline sequences on multi-sender records) through the REAL message handlers, bank and marker keeper, compares every observable with the model inside Coq after every step, evaluates an index-free executable statement of the property on the implementation's observations alone (incl. a ledger of the receiver's own Accept/Decline answers: no payout while a sender was last declined) and runs the module's own invariant.",
     "level_note": "Trusted: Coq kernel + vm_compute; the hand transcription Quarantine/Quarantine.v (tied to the code only by the correspondence run, bounded by its generators); the Go harness' projection; the forked bank, the marker send restriction as modelled (restricted markers without required attributes / deny list / transfer agents; the holder is a required-attribute bypass address: wiring obligation), the sanction restriction (pass-through) and tx rollback as modelled. The first six theorems assume the holder module address signs nothing (signer_ok); the property checker's acceptance ledger is not proved sound on the model. No axioms.",
     "technique": "Coq proof over all histories (induction over fold_left step) of a Gallina model + differential correspondence and property checker evaluated in Coq on observations of the real handlers",
     "coq_files": ["Quarantine/Quarantine.v", "Proofs/QuarantineProofs.v", "Proofs/QuarantineConservation.v", "Proofs/QuarantineIndex.v", "Proofs/QuarantineSteps.v", "Proofs/QuarantineTransfers.v", "Proofs/QuarantineLiveness.v", "Proofs/QuarantineHistories.v", "Proofs/QuarantineCollision.v", "Corr/CorrBase.v", "Corr/C07.v"],
-    "rule": "a case is one history of 10-40 operations over 4-5 funded accounts, a stranger and the holder, 2-3 denoms of which each but the first is in 3/4 of the histories a RESTRICTED marker coin (active marker created in the history, Access_Transfer for at least two and usually all but one of the accounts; restricted coins are withdrawn from the marker), after a random genesis (opt-ins, auto-responses, 0-3 records of 1-3 senders, holder funded exactly or with a surplus) loaded by the real InitGenesis; operations: MsgOptIn/OptOut, MsgSend (also to the holder, to itself, to a stranger; over-balance and malformed coins; restricted coins from senders with and without Transfer access), MsgMultiSend 1..3 outputs (repeated receivers, mismatching totals), BankKeeper.InputOutputCoinsProv with 2-3 inputs, MsgAccept/MsgDecline naming all / a subset / accepted / foreign / duplicate / unknown senders, one sender 3-5 times alone or mixed with others (temporary and permanent); account addresses of 20, 32, 33, 40 and 255 bytes as senders and receivers (4-5 of six per history, pairwise different in their first 32 bytes); every eighth history adds a second 40-byte sender sharing 32 bytes with the first, or a 33-byte sender starting with the 32-byte account, plus the scripted sequence send L1, send L2, accept [L2], accept [L1,L2], MsgUpdateAutoResponses (incl. an invalid enum); in 70 % of the histories with a multi-sender genesis record a scripted sequence on it (accept A, decline B, decline A, accept B, accept A and two variants) is interleaved with the random operations; a history is non-trivial when at least one transfer was quarantined and at least one record was paid out; distinct = distinct operation sequences",
+    "rule": "a case is one history of 10-40 operations over 4-5 funded accounts, a stranger and the holder, 2-3 denoms of which each but the first is in 3/4 of the histories a RESTRICTED marker coin (active marker created in the history, Access_Transfer for at least two and usually all but one of the accounts; restricted coins are withdrawn from the marker), after a random genesis (opt-ins, auto-responses, 0-3 records of 1-3 senders) loaded by the real InitGenesis in a store branch that is kept only when it does not panic: in five of six histories the holder is funded exactly or with a surplus (must be accepted), in one of six it is UNDER-funded (must be refused; such a genesis is a case of its own, CGenRefused): short in one denom that it holds, a record denom absent from the holder, an empty holder, or covered record by record but not for two records together; a wrongly accepted genesis is followed by the usual history so that the checker sees holder < records; operations: MsgOptIn/OptOut, MsgSend (also to the holder, to itself, to a stranger; over-balance and malformed coins; restricted coins from senders with and without Transfer access), MsgMultiSend 1..3 outputs (repeated receivers, mismatching totals), BankKeeper.InputOutputCoinsProv with 2-3 inputs, MsgAccept/MsgDecline naming all / a subset / accepted / foreign / duplicate / unknown senders, one sender 3-5 times alone or mixed with others (temporary and permanent); account addresses of 20, 32, 33, 40 and 255 bytes as senders and receivers (4-5 of six per history, pairwise different in their first 32 bytes); every eighth history adds a second 40-byte sender sharing 32 bytes with the first, or a 33-byte sender starting with the 32-byte account, plus the scripted sequence send L1, send L2, accept [L2], accept [L1,L2], MsgUpdateAutoResponses (incl. an invalid enum); in 70 % of the histories with a multi-sender genesis record a scripted sequence on it (accept A, decline B, decline A, accept B, accept A and two variants) is interleaved with the random operations; a history is non-trivial when at least one transfer was quarantined and at least one record was paid out; distinct = distinct operation sequences",
     "assumptions": ["the quarantine funds holder is a module address without a key: it signs no message (signer_ok)",
                     "accounts carry no locked coins, denoms are send-enabled and nobody is sanctioned; marker denoms are active restricted markers without required attributes, send-deny entries or transfer agents (the marker restriction is modelled for these), every other denom has no marker: the bank's other send restrictions pass the transfer through unchanged",
                     "record suffix hash (SHA-256 of the sorted senders) is collision-free: the model keys multi-sender records by the sorted sender list and single-sender records by the first 32 bytes of the sender (createRecordSuffix)",
